@@ -63,6 +63,11 @@ OwnBases == {
         Style(<<"a">>, <<D("color", <<Var("var(c)")>>, ""), D("left", <<Var("var(w)")>>, "important"), D("top", <<Var("var(nope)")>>, ""),
                          D("margin", <<Var("var(w)"), C("DIMENSION", "2px")>>, ""), D("width", <<Var("var(c)")>>, "")>>),
         Page("", <<D("left", <<Var("var(w)")>>, "")>>, <<>>)>>),
+  Base("variables-comments", <<[k |-> "variables", text |-> "@variables { /*v*/ c: red; /*w*/ w: 1px }",
+                                  vars |-> <<[name |-> "c", value |-> Red], [name |-> "w", value |-> Px("1px")]>>],
+        Style(<<"a">>, <<D("color", <<Var("var(c)")>>, ""), D("left", <<Var("var(w)")>>, "")>>)>>),
+  Base("specificity-nesting", <<Style(<<"a">>, OneDecl), Style(<<"a.c">>, OneDecl), Style(<<"a.c#i">>, <<D("color", Red, "")>>), Style(<<"b">>, OneDecl),
+        Media(<<"print">>, <<Style(<<"a">>, OneDecl), Style(<<"a.c">>, OneDecl)>>)>>),
   Base("variables-twice", <<[k |-> "variables", text |-> "@variables { c: red }", vars |-> <<[name |-> "c", value |-> Red]>>],
         Style(<<"a">>, <<D("color", <<Var("var(c)")>>, "")>>),
         [k |-> "variables", text |-> "@variables { c: 1px; w: 2px }", vars |-> <<[name |-> "c", value |-> Px("1px")], [name |-> "w", value |-> Px("2px")]>>],
